@@ -28,3 +28,24 @@ Definition ex_prog : program :=
 
 (* the test (> v9 2) of the cond in main gets an operand of the wrong type *)
 Definition ex_pos_operand : position := {| p_fn := 2; p_path := [1%nat; 1%nat; 0%nat; 0%nat; 0%nat]; p_arg := 1 |}.
+
+(* strings as computed values:
+   fn f2(v3: string, v4: int) -> int { return (+ (char_at (str_concat v3 (int_to_string v4)) 0) (str_length (str_substring v3 0 2))) }
+   fn main() -> int { return (f2 (+ "a" "b") 7) } *)
+Definition ex_strp : program :=
+  {| pglobals := [];
+     pfns := [
+       {| fname := 2; fparams := [(3, TStr); (4, TInt)]; fret := TInt;
+          fbody := SReturn (Some (EBin BAdd (EStr2 SCharAt (EStr2 SConcat (EVar 3) (EStr1 SOfInt (EVar 4))) (ENum 0))
+                                            (EStr1 SLen (ESubstr (EVar 3) (ENum 0) (ENum 2))))) |};
+       {| fname := 0; fparams := []; fret := TInt; fbody := SReturn (Some (ECall 2 [EStr2 SPlus (EStr [97]) (EStr [98]); ENum 7])) |} ];
+     pmain := 0 |}.
+(* every string builtin of ex_strp, each operand: char_at (string, index), str_concat (both), int_to_string, str_length,
+   str_substring (string, start), + on strings (both) *)
+Definition ex_strp_positions : list position :=
+  [ {| p_fn := 0; p_path := [0%nat; 0%nat]; p_arg := 0 |};              {| p_fn := 0; p_path := [0%nat; 0%nat]; p_arg := 1 |};
+    {| p_fn := 0; p_path := [0%nat; 0%nat; 0%nat]; p_arg := 0 |};       {| p_fn := 0; p_path := [0%nat; 0%nat; 0%nat]; p_arg := 1 |};
+    {| p_fn := 0; p_path := [0%nat; 0%nat; 0%nat; 1%nat]; p_arg := 0 |};
+    {| p_fn := 0; p_path := [0%nat; 1%nat]; p_arg := 0 |};
+    {| p_fn := 0; p_path := [0%nat; 1%nat; 0%nat]; p_arg := 0 |};       {| p_fn := 0; p_path := [0%nat; 1%nat; 0%nat]; p_arg := 1 |};
+    {| p_fn := 1; p_path := [0%nat; 0%nat]; p_arg := 0 |};              {| p_fn := 1; p_path := [0%nat; 0%nat]; p_arg := 1 |} ].
